@@ -31,8 +31,14 @@ package liveness
 //@   ensures @C18: result ==> old(key in lc.ipCache) && old(now()) - tnanos(old(lc.ipCache[key].cachedTime)) < old(lc.expiration)
 //@   ensures @C18: !held(&lc.m) && rheld(&lc.m) == 0
 
+// The order of the two steps is what keeps the bound under concurrency: the eviction callback of the LRU (which removes
+// the map entry) runs outside the LRU's lock, so a key must be in the map BEFORE it is handed to the LRU - otherwise a
+// concurrent eviction of that key finds nothing to remove and the entry written afterwards is tracked by nobody, is
+// never evicted and keeps being served. So: at the moment of the LRU insert the map already holds exactly this element
+// under this key, and the cache's lock is not held (the callback takes it).
 //@ func (lc *lruCache) Add(key string, elem *cacheElement)
-//@   requires lc != nil && lc.lru != nil && !held(&lc.m) && rheld(&lc.m) == 0 && evictLock(lc.lru) == &lc.m
+//@   requires lc != nil && lc.lru != nil && lc.ipCache != nil && !held(&lc.m) && rheld(&lc.m) == 0 && evictLock(lc.lru) == &lc.m
+//@   atcall lru.Cache).Add before: assert @C18: arg1 == box(key) && key in lc.ipCache && lc.ipCache[key] == elem && !held(&lc.m) && rheld(&lc.m) == 0
 //@   ensures @C18: !held(&lc.m) && rheld(&lc.m) == 0
 
 // "with a capacity configured the cache never holds more entries than that capacity": the bound is enforced by the
